@@ -14,57 +14,57 @@ NA_PURE = {
 CHECKS = {
     "C01": ("machine", "exploration",
             "seeded call programs + hostile signature delivery against the real StateMachine, checked by an independent signature ledger after every call",
-            "Seeded search over call programs (all operations, any phase) and over what a hostile network can deliver as a signature (wrong signer, other state, replayed, duplicated, malformed). After every call the current transaction must carry, per participant, a signature that verifies and that the harness itself recorded as made by that participant over exactly that state encoding. Sampling, not proof: a clean batch is evidence.",
+            "Seeded search over call programs (all operations, any phase) and over what a hostile network can deliver as a signature (wrong signer, other state, replayed, duplicated, malformed). After every call the current transaction must carry, per participant, a signature that verifies and that the harness itself recorded as made by that participant over exactly that state encoding. Sampling, not proof: a clean batch is evidence. Waves 8-9: a restore op (RestoreStateMachine from the live machine, nothing observable may change) and a clone op after which the machine left behind must never change again.",
             "Trusts the sim backend's ECDSA sign/verify as ground truth for 'verifies'; the ledger cross-check does not. Indices >= N and ForceUpdate/CheckUpdate on a machine without a current state are outside the property's quantifier.",
             "6/C01"),
     "C02": ("machine", "exploration",
             "reachable states by accepted updates; valid successors, single-condition and multi-condition mutants vs. an independent reference predicate",
-            "At states reached through accepted updates, candidates (valid successors, one-clause mutants of them, random multi-clause mutants) are offered to Update, CheckUpdate and Init; err==nil must equal a reference predicate written from the property statement, refusals must leave the machine unchanged and unsigned. Sampling of a large input space at reachable reference points.",
+            "At states reached through accepted updates, candidates (valid successors, one-clause mutants of them, random multi-clause mutants) are offered to Update, CheckUpdate and Init; err==nil must equal a reference predicate written from the property statement, refusals must leave the machine unchanged and unsigned. Sampling of a large input space at reachable reference points. Waves 8-9: candidates obtained through the library's own State().Clone() and edited in place, judged against the harness's own copy; a refused Init must leave the machine unchanged and unsigned; restore and clone ops as in C01.",
             "The reference predicate is part of the trusted base (sim/gen/ref.go, 120 lines, never calls Valid/Sum/Equal of the code under test). nil big integers and >1024-dimension allocations are not generated.",
             "6/C02"),
     "C09": ("machine", "exploration",
             "reference phase automaton from the doc comments; enumerated short call sequences after 8 prefixes + seeded long programs; byte snapshots for atomicity",
-            "Every call's error/success, resulting phase, staged and current transaction are compared with a reference automaton written from the operations' doc comments; failed calls must leave a byte-identical snapshot. All sequences of a fixed length over a 22-operation canonical alphabet are enumerated after each of 8 prefixes for both participant indices (reported as an enumerated sub-space), longer programs are sampled.",
+            "Every call's error/success, resulting phase, staged and current transaction are compared with a reference automaton written from the operations' doc comments; failed calls must leave a byte-identical snapshot. All sequences of a fixed length over a 22-operation canonical alphabet are enumerated after each of 8 prefixes for both participant indices (reported as an enumerated sub-space), longer programs are sampled. Waves 8-9: restore op; the machine left behind by a clone op must never change again.",
             "The automaton (harness.go) is the trusted base. Where a doc comment is silent on a precondition (SetProgressing) the error text of the method is taken as documentation.",
             "6/C09"),
     "C03": ("world", "exploration",
             "two real clients + local watchers in a synctest bubble on a simulated bus and a strict reference ledger; seeded scenarios x keyed schedules; payouts vs. last commonly enabled state",
-            "Whole-system simulation: real client.Client, real local watcher, simulated bus, strict ledger (verifies signatures, tree shapes, challenge period on the fake clock, pays once). Scenarios draw assets, balances, funding agreement, accepted/rejected payments, sub-channel open/pay/close, final vs. dispute settlement, who settles first; schedules come from keyed delays at every seam and yield points (hand-placed hooks plus automatically injected ones at the lock boundaries of a scratch copy). After both sides settled: account = before - agreed funding + balance in the last state both enabled (open sub-channels included), nothing held, conservation after every ledger mutation. Later additions: one side moving its whole balance into a sub-channel, the parent moving on between a sub-channel's final update and its settlement, callers that cancel their context the moment the state is enabled, a late return of Publish on the synchronous bus; a driver call that never returns is a violation.",
+            "Whole-system simulation: real client.Client, real local watcher, simulated bus, strict ledger (verifies signatures, tree shapes, challenge period on the fake clock, pays once). Scenarios draw assets, balances, funding agreement, accepted/rejected payments, sub-channel open/pay/close, final vs. dispute settlement, who settles first; schedules come from keyed delays at every seam and yield points (hand-placed hooks plus automatically injected ones at the lock boundaries of a scratch copy). After both sides settled: account = before - agreed funding + balance in the last state both enabled (open sub-channels included), nothing held, conservation after every ledger mutation. Later additions: one side moving its whole balance into a sub-channel, the parent moving on between a sub-channel's final update and its settlement, callers that cancel their context the moment the state is enabled, a late return of Publish on the synchronous bus; a driver call that never returns is a violation. Wave 9: settlement while a sub-channel update waits for a slow decision, with impatient first Settle attempts.",
             "The strict ledger's contract (DESIGN 3.2) is a design decision; sub-channels only under no-app parents (the payment app forbids the funding update); a Settle call that fails because registered events of the tree have not all arrived is repeated by the driver, as a user would (counted as probe).",
             "6/C03"),
     "C04": ("world", "exploration",
             "as C03 plus an adversary registering outdated signed states at seeded instants (between/during updates, during sub-channel funding); outcome vs. honest client's Enabled stream",
-            "The peer's real client runs the off-chain protocol while an adversary goroutine registers earlier fully signed states from that client's own history at drawn instants; the honest side watches and settles when notified. Oracle: the concluded tree consists of states the honest client enabled, each at least as new as what it had enabled when its machine entered Registered, and its payout is at least its balances there. Two genuine defects are recorded as known findings, identified by history shape; every other violation is reported. Later additions: the instant a state is handed to the watcher is recorded by a pass-through wrapper (known-finding shape); a slow user decision on a sub-channel update while the dispute starts, impatient Settle contexts, cancel-on-enable; a driver call that never returns is a violation. Wave 7: a slow user decision on a ledger-channel update while the dispute starts, a user who settles only after the challenge period; a forwarding AdjudicatorSub records when the client's event loop took each event, and the known shape ends 100 ms after the first registered event was taken (an update put on the wire later is not the known defect).",
+            "The peer's real client runs the off-chain protocol while an adversary goroutine registers earlier fully signed states from that client's own history at drawn instants; the honest side watches and settles when notified. Oracle: the concluded tree consists of states the honest client enabled, each at least as new as what it had enabled when its machine entered Registered, and its payout is at least its balances there. Two genuine defects are recorded as known findings, identified by history shape; every other violation is reported. Later additions: the instant a state is handed to the watcher is recorded by a pass-through wrapper (known-finding shape); a slow user decision on a sub-channel update while the dispute starts, impatient Settle contexts, cancel-on-enable; a driver call that never returns is a violation. Wave 7: a slow user decision on a ledger-channel update while the dispute starts, a user who settles only after the challenge period; a forwarding AdjudicatorSub records when the client's event loop took each event, and the known shape ends 100 ms after the first registered event was taken (an update put on the wire later is not the known defect). Wave 9: the honest side's next Register fails once (armed after the adversary's registration), the ledger re-delivers the latest event twice; a re-delivery after the challenge period is no occasion for the known-finding shape.",
             "Ledger latencies are bounded so that five refutation rounds fit into the challenge period (the protocol's own assumption). Refutations do not extend the challenge period in the reference ledger.",
             "6/C04"),
     "C06": ("world", "exploration",
             "two real clients in a synctest bubble; seeded update programs (sequential, concurrent, several channels) x keyed schedules and yield points (hand-placed hooks plus automatically injected ones at the lock boundaries of a scratch copy); agreement oracle over Enabled/SigAdded streams; token-configuration liveness",
-            "Programs of up to 15 Channel.Update calls from either side on 1-3 channels with keyed accept/reject decisions; strict runs check success => both enabled the proposed state fully signed, rejection => never enabled, no fork, version gap <= 1, accept => enabled, both Acting + probe update; the token configuration additionally forbids any timeout (a lost reply inside the client). Loss, duplication and short contexts run in a separate relaxed configuration that only checks the fully-signed invariant, as the property says. Later additions: eager concurrent openings with an immediate first payment, late return of Publish, the invariant that a controller's in-memory state is the last state it enabled; a driver call that never returns is a violation. Wave 7: channel synchronisation messages injected during the update program (replies taken by the driver); restart runs without a timeout judge the success clause for updates that started on current instances; the survivor may update while its peer is being restored.",
+            "Programs of up to 15 Channel.Update calls from either side on 1-3 channels with keyed accept/reject decisions; strict runs check success => both enabled the proposed state fully signed, rejection => never enabled, no fork, version gap <= 1, accept => enabled, both Acting + probe update; the token configuration additionally forbids any timeout (a lost reply inside the client). Loss, duplication and short contexts run in a separate relaxed configuration that only checks the fully-signed invariant, as the property says. Later additions: eager concurrent openings with an immediate first payment, late return of Publish, the invariant that a controller's in-memory state is the last state it enabled; a driver call that never returns is a violation. Wave 7: channel synchronisation messages injected during the update program (replies taken by the driver); restart runs without a timeout judge the success clause for updates that started on current instances; the survivor may update while its peer is being restored. Wave 9: handlers that answer with a context of 0-8 ms while Publish returns late; the success clause (Update returned nil => both enabled the state) is judged in relaxed runs on non-duplicating networks too.",
             "Exactly-once delivery in strict configurations is go-perun's stated assumption about the bus. Same-instant wake-ups are ordered by the Go runtime, not by the seed (measured by the determinism self-test: 0 diverging of 480 runs x 3 executions).",
             "6/C06"),
     "C10": ("persist", "fault_enumeration",
             "crash at every store-write boundary (enumerated) of seeded persisted-machine programs on memorydb and LevelDB; restore vs. before/after snapshots; failing writes in a relaxed configuration",
-            "For every operation of every generated program and every write/batch boundary inside it, the durable image at that boundary is restored with a fresh restorer (LevelDB: written to a new directory and reopened) and RestoreChannel/RestorePeer must equal the harness's own before- or after-snapshot of the interrupted operation, exactly the after-snapshot once the operation completed; every restored staging signature must verify for the restored staged state; other channels restore unchanged. Crash points are enumerated per program, programs are sampled. Later addition: in the write-error configuration a failed Sig is retried; once it returns nil the store must hold the own signature. Wave 7: the three operations that take a state without validation (forced update, SetProgressing, SetProgressed) also get the current, a lower or a much higher version (the client itself forces the final form of the current version).",
+            "For every operation of every generated program and every write/batch boundary inside it, the durable image at that boundary is restored with a fresh restorer (LevelDB: written to a new directory and reopened) and RestoreChannel/RestorePeer must equal the harness's own before- or after-snapshot of the interrupted operation, exactly the after-snapshot once the operation completed; every restored staging signature must verify for the restored staged state; other channels restore unchanged. Crash points are enumerated per program, programs are sampled. Later addition: in the write-error configuration a failed Sig is retried; once it returns nil the store must hold the own signature. Wave 7: the three operations that take a state without validation (forced update, SetProgressing, SetProgressed) also get the current, a lower or a much higher version (the client itself forces the final form of the current version). Waves 8-9: channels with 9-11 participants; every operation is repeated after a failed write (a repeated call that returns nil has completed); an operation that returns nil although a write failed has completed.",
             "Boundaries are individual Put/Delete calls and Batch.Apply (atomic), as the property states; torn batches and file-level LevelDB corruption are out of scope. Create/remove use two batches, so RestoreChannel and RestorePeer are judged independently between them.",
             "6/C10"),
     "C11": ("persist", "exploration",
             "seeded create/update/remove histories over up to 6 channels and a shared peer pool on both stores vs. a reference set of live channels, after every step",
-            "After every step of a history the restorer's four views (RestoreChannel, RestorePeer, ActivePeers, RestoreAll) and the raw key set are compared with a reference set of live channels with snapshots; operations on one channel must leave every other channel's restored value byte-identical. Later additions: peers reachable under several backend ids; removals and creations whose first or second write fails (the half-removed/half-created channel is tolerated, every other channel must be unaffected). Wave 7: a second pool of wire identities whose bytes spell fragments of the store's key syntax (':channel:', 'Chan:', ...), two of them sharing the prefix up to the separator; forced/progressed states with the current, a lower or a much higher version.",
+            "After every step of a history the restorer's four views (RestoreChannel, RestorePeer, ActivePeers, RestoreAll) and the raw key set are compared with a reference set of live channels with snapshots; operations on one channel must leave every other channel's restored value byte-identical. Later additions: peers reachable under several backend ids; removals and creations whose first or second write fails (the half-removed/half-created channel is tolerated, every other channel must be unaffected). Wave 7: a second pool of wire identities whose bytes spell fragments of the store's key syntax (':channel:', 'Chan:', ...), two of them sharing the prefix up to the separator; forced/progressed states with the current, a lower or a much higher version. Waves 8-9: channels with 9-11 participants; write failures on state changes; an operation that returns nil although a write failed has completed.",
             "No crashes here (C10 covers them). LevelDB in 5% of runs.",
             "6/C11"),
     "C08": ("world", "exploration",
             "real two-party opening protocol under keyed schedules with scenario-controlled nonce shares; crafted single-condition proposal mutants injected by a raw peer (stranger or channel counterparty) at seeded instants",
-            "(a) honest openings of ledger and sub-channels with drawn parameters: both sides must hold byte-identical parameters, ID, participant order and the same fully signed version-0 state equal to the proposal; openings that differ only in one side's nonce share must yield different IDs. (b) 24 kinds of proposals that break one validity condition are re-serialised (decodability enforced) and delivered to a client with or without a matching parent: the proposal handler must not run, no channel may be created, the process must survive (a dead worker is replayed in a fresh process and reported with the panic site) and a later honest proposal must still succeed. Later additions: proposals racing an update in flight on the parent (judged at handler time against the parent's current state), own proposals that the proposer's client refuses followed by an honest one, overlapping openings; a driver call that never returns is a violation.",
+            "(a) honest openings of ledger and sub-channels with drawn parameters: both sides must hold byte-identical parameters, ID, participant order and the same fully signed version-0 state equal to the proposal; openings that differ only in one side's nonce share must yield different IDs. (b) 24 kinds of proposals that break one validity condition are re-serialised (decodability enforced) and delivered to a client with or without a matching parent: the proposal handler must not run, no channel may be created, the process must survive (a dead worker is replayed in a fresh process and reported with the panic site) and a later honest proposal must still succeed. Later additions: proposals racing an update in flight on the parent (judged at handler time against the parent's current state), own proposals that the proposer's client refuses followed by an honest one, overlapping openings; a driver call that never returns is a violation. Waves 8-9: proposals built from one re-used options value (library-drawn nonce share, no collision is legitimate), an opening during which one message cannot be sent (the final honest opening must still work), two openings by one proposer at once.",
             "Honest virtual channel openings run in a three-client world (c08v); virtual proposal mutants are injected by a raw peer. Invalid allocations are not decodable with the native serializer and therefore outside (b)'s quantifier there.",
             "6/C08"),
     "C07": ("world", "exploration",
             "adversary edits the counterparty client's outgoing update / sub-channel funding / settlement / virtual-channel funding and settlement messages in flight and re-signs them; independent acceptability predicate; two- and three-party worlds",
-            "The adversary's node runs a real client for the honest protocol steps; at drawn points its outgoing update message is edited (40+ kinds of edits of state, signature, actor, locked sub-allocations, debit/credit distribution, index maps, signed virtual states), re-signed with its key, passed through the serializer and delivered. The honest side's handler accepts everything. Oracle: the honest client countersigned (acceptance message on the bus or state enabled) only if an independent predicate written from the property statement accepts the update for its class (ordinary / sub-channel funding / settlement / virtual funding / virtual settlement as hub). Later additions: multi-message crafts (stale funding after a payment, an ordinary update for v+2 built on v behind the funding update, a settlement crediting a final state whose acceptance could not be sent), send errors on the bus, the invariant that the hub's in-memory state is the last state it enabled.",
+            "The adversary's node runs a real client for the honest protocol steps; at drawn points its outgoing update message is edited (40+ kinds of edits of state, signature, actor, locked sub-allocations, debit/credit distribution, index maps, signed virtual states), re-signed with its key, passed through the serializer and delivered. The honest side's handler accepts everything. Oracle: the honest client countersigned (acceptance message on the bus or state enabled) only if an independent predicate written from the property statement accepts the update for its class (ordinary / sub-channel funding / settlement / virtual funding / virtual settlement as hub). Later additions: multi-message crafts (stale funding after a payment, an ordinary update for v+2 built on v behind the funding update, a settlement crediting a final state whose acceptance could not be sent), send errors on the bus, the invariant that the hub's in-memory state is the last state it enabled. Waves 8-9: a settlement crediting the sub-channel's balances from before its final update.",
             "The acceptability predicate (c07.go, c07v.go) is the trusted base. Three-party runs use the asynchronous bus only (the hub answers while holding a std mutex, rule R3).",
             "6/C07"),
     "C12": ("world", "exploration",
             "three-party world; seeded sequences of 1-6 decodable hostile envelopes (70 kinds over all request and response types, from the channel counterparty or a stranger) while the victim optionally holds its machine lock; process survival + bounded liveness probes on the fake clock",
-            "Hostile envelopes are built at struct level (dimension mismatches, nil/empty transactions, short/long parent lists and index maps, answers to requests never made or pending, correct signatures over inconsistent content), passed through the run's serializer (native or protobuf; an envelope that cannot be encoded or decoded is outside the quantifier) and delivered at drawn instants, also while the victim's machine lock is held for 3 s or 12 s by a pending own request. Oracle: the worker process survives (a dead worker is replayed in a fresh process and reported with the panic site), and after the last message and 30 simulated seconds every honest probe (Phase, Update with a 60 s context on the channel with an honest third client and on the channel with the adversary's address) returns within 120 simulated seconds with anything but 'could not lock the machine mutex'. A simulation stalled on a mutex inside go-perun is reported as lock-up as well. Later additions: up to three honest virtual channels, locked-list mutations, embedded states with fewer balance columns, empty participant maps, two stateful adversaries around an abandoned or late-funded sub-channel opening, settlement proposals of the two parties 9.99-12 s apart, synchronous bus also in three-party runs. Wave 7: 17-40 late answers to a proposal of the victim that has timed out; the probes may begin with a new channel opening between two honest clients.",
+            "Hostile envelopes are built at struct level (dimension mismatches, nil/empty transactions, short/long parent lists and index maps, answers to requests never made or pending, correct signatures over inconsistent content), passed through the run's serializer (native or protobuf; an envelope that cannot be encoded or decoded is outside the quantifier) and delivered at drawn instants, also while the victim's machine lock is held for 3 s or 12 s by a pending own request. Oracle: the worker process survives (a dead worker is replayed in a fresh process and reported with the panic site), and after the last message and 30 simulated seconds every honest probe (Phase, Update with a 60 s context on the channel with an honest third client and on the channel with the adversary's address) returns within 120 simulated seconds with anything but 'could not lock the machine mutex'. A simulation stalled on a mutex inside go-perun is reported as lock-up as well. Later additions: up to three honest virtual channels, locked-list mutations, embedded states with fewer balance columns, empty participant maps, two stateful adversaries around an abandoned or late-funded sub-channel opening, settlement proposals of the two parties 9.99-12 s apart, synchronous bus also in three-party runs. Wave 7: 17-40 late answers to a proposal of the victim that has timed out; the probes may begin with a new channel opening between two honest clients. Waves 8-9: a funding update aimed at the victim's recorded deadline (-1..+4 ms, all yield points on), 17-40 answers after a failed send of the victim's update, send faults while an honest virtual channel is funded or settled, one transient send error anywhere in the honest traffic; second scenario family: two honest clients (payments, sub-channel open/pay/close) with 2-12 % failing sends, then probes from both sides on every open channel (no lock wait, no unanswered request).",
             "The adversary's address is served by a real client that answers probes honestly but never sync messages (two clients running the library's sync handler bounce replies forever; noted in DESIGN). Runs are capped at 20000 seam events.",
             "6/C12"),
     "C13": ("link", "fault_enumeration",
@@ -79,22 +79,22 @@ CHECKS = {
             "6/C14"),
     "C16": ("link", "fault_enumeration",
             "read/write chunk schedules (single bytes, segments, field boundaries +-1, random partitions, all single splits of short streams) on an open simulated link under wire/net ioConn with both serializers",
-            "1-10 consecutive envelopes (byte fields up to 64 KiB through a blob-data app) are sent with the real ioConn.Send and read with ioConn.Recv under chunking schedules; every envelope must decode, in order, to what was sent, and identically under any two schedules. All single-split positions are enumerated for streams up to 1 KiB, other partitions are sampled. Sender-side fault: a Send of an envelope that cannot be encoded between well-formed ones; exactly the envelopes reported as sent must arrive. Wave 7: an envelope whose protobuf frame is 65535 +- 150 bytes is sent in between: its Send fails cleanly or it arrives, the stream stays framed either way; cross-ledger allocations.",
+            "1-10 consecutive envelopes (byte fields up to 64 KiB through a blob-data app) are sent with the real ioConn.Send and read with ioConn.Recv under chunking schedules; every envelope must decode, in order, to what was sent, and identically under any two schedules. All single-split positions are enumerated for streams up to 1 KiB, other partitions are sampled. Sender-side fault: a Send of an envelope that cannot be encoded between well-formed ones; exactly the envelopes reported as sent must arrive. Wave 7: an envelope whose protobuf frame is 65535 +- 150 bytes is sent in between: its Send fails cleanly or it arrives, the stream stays framed either way; cross-ledger allocations. Wave 9: write faults now include short writes (io.ErrShortWrite, once or twice in a row) and partial writes followed by a timeout.",
             "The stream stays open (a reader reporting EOF together with the last bytes is a closed connection, which the native codec treats as an error by design).",
             "6/C16"),
     "C05": ("watcher", "exploration",
             "the real local watcher on a scripted adjudicator in a synctest bubble; enumerated short action histories x 3 schedules + seeded long histories with racing publishes/events/stops and yield points (hand-placed hooks plus automatically injected ones at the lock boundaries of a scratch copy); reference model with explicit may-zones",
-            "Driver actions (start watching parent/sub-channels, publish, inject registered/progressed/concluded events with any version, stop watching, refused stops) are issued with keyed gaps, partly concurrently, with self-caused events on or off and scripted Register failures. Every observable point gets a global number; the oracle checks must-refute, the shape of every Register call (newest parent in the admissible interval, one sub-state per locked sub-allocation in order, archived state for de-registered ones), no spurious registration, relay at-most-once/in-order/always for progressed and concluded, and the refused-stop contract. All histories up to length 5 (quick) / 6 (thorough) with one sub-channel and versions <= 2 are enumerated at 3 schedules each. Later additions: StopWatching(parent) racing StartWatchingSubChannel as an epilogue (exactly one of the two may succeed), scripted Subscribe failures.",
+            "Driver actions (start watching parent/sub-channels, publish, inject registered/progressed/concluded events with any version, stop watching, refused stops) are issued with keyed gaps, partly concurrently, with self-caused events on or off and scripted Register failures. Every observable point gets a global number; the oracle checks must-refute, the shape of every Register call (newest parent in the admissible interval, one sub-state per locked sub-allocation in order, archived state for de-registered ones), no spurious registration, relay at-most-once/in-order/always for progressed and concluded, and the refused-stop contract. All histories up to length 5 (quick) / 6 (thorough) with one sub-channel and versions <= 2 are enumerated at 3 schedules each. Later additions: StopWatching(parent) racing StartWatchingSubChannel as an epilogue (exactly one of the two may succeed), scripted Subscribe failures. Wave 8: epilogue with a lagging client - 13-16 progressed events and a concluded one while the client does not read; it must get all of them, in order.",
             "The reference model with its may-zones (oracle.go) is the trusted base; workload restrictions are listed in the evidence assumptions. Multi-ledger channels are excluded, as in the property.",
             "6/C05"),
     "C18": ("relay", "exploration",
             "2-4 simulated threads on one real wire.Relay in a bubble, schedules through the relay/receiver yield points (hand-placed hooks plus automatically injected ones at the lock boundaries of a scratch copy); distribution invariants + porcupine linearizability against a sequential relay model; race-detector pass with real parallelism",
-            "Programs of puts, subscribes, cache enable/release and consumer closes with overlapping predicates run on 2-4 threads with keyed gaps and a buggify mask over 7 yield sites; after quiescence the final distribution must have no duplicate, no predicate violation and no unaccounted envelope, and the stamped history must be linearizable (porcupine) against a sequential reference relay. The same engine is rebuilt with -race and run with GOMAXPROCS>1, including bursts of unsynchronised concurrent puts; any data race in wire/relay.go, cache.go or receiver.go is a violation. Wave 7: impatient consumers - Receiver.Next with a context that is already done or whose deadline passes while waiting, on a receiver that stays open; every envelope handed to the receiver must still be returned by exactly one call.",
+            "Programs of puts, subscribes, cache enable/release and consumer closes with overlapping predicates run on 2-4 threads with keyed gaps and a buggify mask over 7 yield sites; after quiescence the final distribution must have no duplicate, no predicate violation and no unaccounted envelope, and the stamped history must be linearizable (porcupine) against a sequential reference relay. The same engine is rebuilt with -race and run with GOMAXPROCS>1, including bursts of unsynchronised concurrent puts; any data race in wire/relay.go, cache.go or receiver.go is a violation. Wave 7: impatient consumers - Receiver.Next with a context that is already done or whose deadline passes while waiting, on a receiver that stays open; every envelope handed to the receiver must still be returned by exactly one call. Wave 9: epilogue on a relay of its own - a stalled receiver fills up, the producer blocks, the receiver is closed; the producer must go on and the other consumer gets all envelopes once; a stalled relay simulation is classified as lock-up.",
             "A cooperative scheduler cannot split a single append; unsynchronised conflicting accesses are therefore left to the happens-before race detector. Race-mode runs do not replay instruction for instruction.",
             "6/C18"),
     "C20": ("multi", "exploration",
             "real multi.Adjudicator/Funder over scripted per-ledger backends in a bubble; keyed sub-call latencies (all completion orders), failures and stalls; call-log oracle; race-detector pass",
-            "Asset lists of 1-6 multi-ledger assets over up to 6 ledgers (repeated, reordered, unregistered, foreign ledgers registered), calls Register/Progress/Withdraw/Fund with and without an egoistic participant; from the call logs: every distinct ledger of the channel called exactly once and no other, success only if every forwarded call succeeded and every ledger was registered, the egoistic ledger's Fund starts only after all others returned nil, no dispatcher goroutine outlives the run. Later additions: the request's own content varies (secondary flag, participant index, zero balances per asset, sub-channel states); the caller may cancel its context while sub-calls are pending.",
+            "Asset lists of 1-6 multi-ledger assets over up to 6 ledgers (repeated, reordered, unregistered, foreign ledgers registered), calls Register/Progress/Withdraw/Fund with and without an egoistic participant; from the call logs: every distinct ledger of the channel called exactly once and no other, success only if every forwarded call succeeded and every ledger was registered, the egoistic ledger's Fund starts only after all others returned nil, no dispatcher goroutine outlives the run. Later additions: the request's own content varies (secondary flag, participant index, zero balances per asset, sub-channel states); the caller may cancel its context while sub-calls are pending. Wave 9: twin requests (the other participant issues the same kind of request for the same channel and registered state concurrently), told apart by participant index.",
             "The converse 'fails although nothing failed' is only counted (the statement says 'succeeds only if').",
             "6/C20"),
 }
